@@ -14,7 +14,7 @@ from concurrent.futures import ThreadPoolExecutor
 
 REPO = os.environ.get("VERIF_REPO", "/repo")
 VERIF = os.path.dirname(os.path.dirname(os.path.abspath(__file__)))
-BUILD = os.path.join(VERIF, "build")
+BUILD = os.environ.get("VERIF_BUILD") or os.path.join(VERIF, "build")
 GUARD = "IPHREEQC_VERIF"
 
 INC = ["src", "src/phreeqcpp", "src/phreeqcpp/common", "src/phreeqcpp/PhreeqcKeywords"]
@@ -35,7 +35,7 @@ VARIANTS = {
 # executables / shared objects per variant: name -> (sources under /verif/shim, extra link flags, kind)
 TARGETS = {
     "rel": {
-        "libiphreeqc_rel.so": (["shim.cpp"], ["-shared"], "so"),
+        "libiphreeqc_rel.so": (["shim*.cpp"], ["-shared"], "so"),  # every shim/shim*.cpp is linked in
         "mt_rel": (["mt_harness.cpp"], ["-pthread"], "exe"),
     },
     "asan": {
@@ -138,10 +138,20 @@ def build(variant, want=None, verbose=False):
         if want:
             targets = {k: v for k, v in targets.items() if k in want}
         shim_srcs = []
-        for t, (ss, _, _) in targets.items():
+        import glob as _glob
+        expanded = {}
+        for t, (ss, ld, kind) in targets.items():
+            ex_ = []
             for s in ss:
+                if "*" in s:
+                    ex_ += sorted(os.path.basename(x) for x in _glob.glob(os.path.join(VERIF, "shim", s)))
+                else:
+                    ex_.append(s)
+            expanded[t] = (ex_, ld, kind)
+            for s in ex_:
                 if s not in shim_srcs:
                     shim_srcs.append(s)
+        targets = expanded
         for s in shim_srcs:
             jobs.append((os.path.join(VERIF, "shim", s), "shim_" + s, (os.path.join(VERIF, "shim"),)))
         results = {}
